@@ -81,6 +81,11 @@ impl Property for C26 {
             let (permille, mask) = swarm_faults(&mut fr, w);
             case.fault_permille = permille;
             case.fault_mask = mask;
+            case.list_scale = match fr.below(60) {
+                0 => 2,
+                1..=2 => 1,
+                _ => 0,
+            };
             let out = exec::check_c26(&case, &parsed, false);
             let mut r = RunReport::default();
             let mut counters: Vec<(String, u64)> = vec![];
@@ -192,11 +197,15 @@ impl Property for C26 {
 /// names stripped), so that one defect seen on many inputs maps to one signature while a
 /// different defect of the same class does not.
 pub fn signature(v: &Violation) -> String {
-    format!("{}:{}", v.class, shape(&v.detail))
+    // details are written as "<stable phrase> | <specifics of this input>"
+    match v.detail.split_once(" | ") {
+        Some((stable, _)) => format!("{}:{}", v.class, shape(stable)),
+        None => v.class.clone(),
+    }
 }
 
 pub fn shape(detail: &str) -> String {
-    // keep only the structural words of the detail message
+    // keep only the structural words: drop quoted names, digits, paths
     let mut out = String::new();
     let mut in_tick = false;
     for c in detail.chars() {
